@@ -156,3 +156,70 @@ V('c14-foreign-writer', 'C14', 'C14.R1',
   (MAINF, "        self._validate_pull_operations_enabled()\n        return self._pull_response('PullInstancePaths',",
           "        self._validate_pull_operations_enabled()\n        self.enumeration_contexts.pop(EnumerationContext + 'x', None)\n        return self._pull_response('PullInstancePaths',"),
   'foreign-writer')
+
+# ---- C12 / C13 --------------------------------------------------------------
+BASEF = 'pywbem_mock/_baseprovider.py'
+V('c12-subclass-case', 'C12', 'C12.R1',
+  (MAINF, "if c.superclass and c.superclass.lower() == classname.lower()]",
+          "if c.superclass and c.superclass == classname]"), '_get_subclass_names')
+V('c12-enum-plain-list', 'C12', 'C12.R1',
+  (MAINF, "        result = NocaseList(cln_list)\n        result.append(classname)\n        return result",
+          "        result = list(cln_list)\n        result.append(classname)\n        return result"), '')
+V('c12-filter-props-case', 'C12', 'C12.R1',
+  (BASEF, "            property_list = [p.lower() for p in property_list]\n", ""), 'filter_properties')
+V('c12-enumclassnames-deep', 'C12', 'C12.R3',
+  (MAINF, "        # Return list of subclass names\n        return self._get_subclass_names(ClassName, class_store, DeepInheritance)",
+          "        # Return list of subclass names\n        return self._get_subclass_names(ClassName, class_store, True)"),
+  'closure-differs')
+V('c12-flag-adds', 'C12', 'C12.R4',
+  (BASEF, "            obj.properties[prop].class_origin = None", "            obj.properties[prop].class_origin = obj.classname"),
+  'adds')
+V('c12-deleteclass-shallow', 'C12', 'C12.R3',
+  (MAINF, "        classnames = self._get_subclass_names(ClassName, class_store, True)\n        classnames.append(ClassName)",
+          "        classnames = self._get_subclass_names(ClassName, class_store, False)\n        classnames.append(ClassName)"),
+  'delete-subtree')
+V('c12-localonly-live', 'C12', 'C12.R1',
+  (MAINF, "INSTANCE_RETRIEVE_LOCAL_ONLY = False", "INSTANCE_RETRIEVE_LOCAL_ONLY = True"), '_get_instance')
+V('c13-role-not-lowered', 'C13', 'C13.R2',
+  (MAINF, "        role = role.lower() if role else None\n", "        role = role if role else None\n"), '_get_reference_instnames')
+V('c13-source-case', 'C13', 'C13.R2',
+  (MAINF, "                        if prop.reference_class.lower() == \\\n                                classname.lower() and \\\n",
+          "                        if prop.reference_class == classname and \\\n"), '_get_associated_classnames')
+V('c13-names-args', 'C13', 'C13.R1',
+  (MAINF, "            ref_paths = self._get_reference_instnames(namespace, ObjectName,\n                                                      ResultClass,\n                                                      Role)\n            rtn_names = [r.copy() for r in ref_paths]",
+          "            ref_paths = self._get_reference_instnames(namespace, ObjectName,\n                                                      ResultClass,\n                                                      None)\n            rtn_names = [r.copy() for r in ref_paths]"),
+  'args-differ')
+V('c13-no-subclass-expansion', 'C13', 'C13.R3',
+  (MAINF, "        resultclasses = self._subclasses_lc(result_class, class_store)\n",
+          "        resultclasses = [result_class.lower()] if result_class else []\n"), 'not-expanded')
+V('c13-shallow-subclasses', 'C13', 'C13.R3',
+  (MAINF, "        clns.extend(self._get_subclass_names(classname, class_store, True))",
+          "        clns.extend(self._get_subclass_names(classname, class_store, False))"), 'subclasses-lc')
+
+# ---- C18 ------------------------------------------------------------------
+SMF = 'pywbem/_subscription_manager.py'
+SPF = 'pywbem_mock/_subscriptionproviders.py'
+V('c18-unescaped', 'C18', 'C18.R1',
+  (SMF, "            _format(r'^pywbemfilter:{0}:[^:]*$',\n                    re.escape(self._subscription_manager_id)))",
+        "            _format(r'^pywbemfilter:{0}:[^:]*$',\n                    self._subscription_manager_id))"), 'unescaped')
+V('c18-append-before-create', 'C18', 'C18.R2',
+  (SMF, "        filter_path = server.conn.CreateInstance(\n            filter_inst, namespace=interop_ns)\n        filter_inst = server.conn.GetInstance(filter_path)\n\n        if owned:\n            self._owned_filters[server_id].append(filter_inst)\n",
+        "        if owned:\n            self._owned_filters[server_id].append(filter_inst)\n        filter_path = server.conn.CreateInstance(\n            filter_inst, namespace=interop_ns)\n        filter_inst = server.conn.GetInstance(filter_path)\n"),
+  'append-before-create')
+V('c18-append-unguarded', 'C18', 'C18.R2',
+  (SMF, "        if owned:\n            self._owned_destinations[server_id].append(dest_inst)\n\n        return dest_inst",
+        "        self._owned_destinations[server_id].append(dest_inst)\n\n        return dest_inst"), 'append-unguarded')
+V('c18-no-ref-guard', 'C18', 'C18.R3',
+  (SMF, "        if ref_paths:\n            # DSP1054 1.2 defines that this CIM error is raised by the server\n            # in that case, so we simulate that behavior on the client side.\n            raise CIMError(\n                CIM_ERR_FAILED,\n                \"The indication filter is referenced by subscriptions.\",\n                conn_id=conn_id)\n",
+        ""), 'unguarded-delete')
+V('c18-name-skeleton', 'C18', 'C18.R4',
+  (SMF, "                'pywbemfilter:{0}:{1}',", "                'pywbemfilter-{0}:{1}',"), 'skeleton')
+V('c18-perm-on-owned', 'C18', 'C18.R3',
+  (SMF, "            if dest_path in owned_destination_paths:\n                raise ValueError(\n                    _format(\"Permanent subscription cannot be created on \"\n                            \"owned listener destination: {0!A}\", dest_path))\n", ""),
+  'no-refusal')
+V('c18-prune-no-delete', 'C18', 'C18.R2',
+  (SMF, "        server.conn.DeleteInstance(sub_path)\n", ""), 'delete-prune')
+V('c18-mock-uncalled', 'C18', 'C18.R5b',
+  (SPF, "new_instance[pname].lower() != test_value.lower():", "new_instance[pname].lower != test_value.lower:"), 'uncalled')
+V('c18-mock-case', 'C18', 'C18.R5',
+  (SPF, "        if modified_instance.classname.lower() != \\\n                SUBSCRIPTION_CLASSNAME.lower():", "        if modified_instance.classname != SUBSCRIPTION_CLASSNAME:"), 'case')
